@@ -22,8 +22,9 @@ EXTENDS Integers, Sequences, FiniteSets, TLC
 CONSTANTS NT, Ins, Rel, Blk,
           Delay,        \* safe delay in clock ticks
           MaxClock, Cap, MaxArr, MaxRestart, MaxCheck,
+          MaxReorg,     \* how often the top block may be orphaned
           Race,         \* TRUE: the consumer may be interleaved at the point after the mempool add (F10)
-          Fix,          \* repaired defects assumed by the model: subset of {"reannounce", "race"}
+          Fix,          \* repaired defects assumed by the model: subset of {"reannounce", "race", "staleproof", "neverboth"}
           Mut           \* "" or a mutant
 
 Tx == 1..NT
@@ -32,7 +33,8 @@ Range(s) == {s[i] : i \in 1..Len(s)}
 Remove(s, x) == SelectSeq(s, LAMBDA y : y # x)
 NB == Len(Blk)
 
-NoSt == [has |-> FALSE, safe |-> FALSE, unsafe |-> FALSE, canc |-> FALSE, proof |-> FALSE, depth |-> 0]
+NoSt == [has |-> FALSE, safe |-> FALSE, unsafe |-> FALSE, canc |-> FALSE, proof |-> FALSE, depth |-> 0,
+         pst |-> FALSE]      \* pst: the stored merkle proof is of a block that is no longer in the chain
 NoUn == [in |-> FALSE, safe |-> FALSE, unsafe |-> FALSE, tr |-> FALSE, t0 |-> 0]
 NoMp == [st |-> "no", tr |-> FALSE]
 
@@ -44,8 +46,10 @@ VARIABLES mp,        \* mempool entry per tx: st in {"no", "mark" (announced onl
           c,         \* consumer: [pc, t, tr, safe, confl]
           nblk,      \* number of blocks processed
           clock, dl, arr, restarts, checks, aborted,
+          ready,     \* the node is in sync (state.IsReady); FALSE between a reorganisation and its replacement block
+          orphd,     \* the processed blocks that were orphaned, in order
           act
-vars == <<mp, idx, un, st, q, c, nblk, clock, dl, arr, restarts, checks, aborted, act>>
+vars == <<mp, idx, un, st, q, c, nblk, clock, dl, arr, restarts, checks, aborted, ready, orphd, act>>
 
 IdleC == [pc |-> "idle", t |-> 0, tr |-> FALSE, safe |-> FALSE, confl |-> <<>>]
 A(a, t, s) == [a |-> a, t |-> t, s |-> s]
@@ -75,24 +79,30 @@ RECURSIVE RemoveAll(_, _, _)
 RemoveAll(m, ix, ts) == IF ts = <<>> THEN <<m, ix>>
                         ELSE LET r == RemoveTx(m, ix, Head(ts)) IN RemoveAll(r[1], r[2], Tail(ts))
 
-Note(kind, t, s) == [k |-> kind, t |-> t, safe |-> s.safe, unsafe |-> s.unsafe, canc |-> s.canc, proof |-> s.proof, depth |-> s.depth]
+Note(kind, t, s) == [k |-> kind, t |-> t, safe |-> s.safe, unsafe |-> s.unsafe, canc |-> s.canc, proof |-> s.proof, depth |-> s.depth,
+                     pv |-> ~(s.proof /\ s.pst)]    \* pv: the proof carried (if any) is for a block of the chain
 
 -----------------------------------------------------------------------------
 (* environment *)
 Arrive(t, src) ==            \* tx message ("TT" trusted, "UT" untrusted connection; "TX"/"UX" inside an extended message) or local submit ("LOC")
   /\ arr < MaxArr /\ Len(q) < Cap
-  /\ q' = Append(q, [t |-> t, tr |-> src \notin {"UT", "UX"}, safe |-> src = "LOC"])
+  /\ (src = "LOC" => ready)          \* SendTx waits (up to 25 s) for the node to be in sync before it queues the transaction
+  /\ q' = IF ready \/ src \in {"UT", "UX"} THEN Append(q, [t |-> t, tr |-> src \notin {"UT", "UX"}, safe |-> src = "LOC"])
+          ELSE q       \* the trusted connection's tx handler drops transactions while the node is not in sync; an untrusted
+                       \* connection looks at its own verification state (handlers/untrusted_transaction.go:36)
   /\ arr' = arr + 1 /\ act' = A("Arrive", t, src)
-  /\ UNCHANGED <<mp, idx, un, st, c, nblk, clock, dl, restarts, checks, aborted>>
+  /\ UNCHANGED <<mp, idx, un, st, c, nblk, clock, dl, restarts, checks, aborted, ready, orphd>>
 
 Inv(t, src) ==               \* inventory from the trusted ("TT") or an untrusted ("UT") connection: MemPool.AddRequest
   /\ arr < MaxArr
-  /\ mp' = [mp EXCEPT ![t] = [st |-> IF @.st = "no" THEN "mark" ELSE @.st, tr |-> @.tr \/ src = "TT"]]
+  /\ mp' = IF ready \/ src = "UT" THEN [mp EXCEPT ![t] = [st |-> IF @.st = "no" THEN "mark" ELSE @.st, tr |-> @.tr \/ src = "TT"]]
+           ELSE mp      \* the trusted connection's inventories are ignored while the node is not in sync (an untrusted connection
+                        \* looks at its own verification state: handlers/untrusted_inventory.go:40)
   /\ arr' = arr + 1 /\ act' = A("Inv", t, src)
-  /\ UNCHANGED <<idx, un, st, q, c, nblk, clock, dl, restarts, checks, aborted>>
+  /\ UNCHANGED <<idx, un, st, q, c, nblk, clock, dl, restarts, checks, aborted, ready, orphd>>
 
 Tick == /\ clock < MaxClock /\ clock' = clock + 1 /\ act' = A("Tick", 0, "")
-        /\ UNCHANGED <<mp, idx, un, st, q, c, nblk, dl, arr, restarts, checks, aborted>>
+        /\ UNCHANGED <<mp, idx, un, st, q, c, nblk, dl, arr, restarts, checks, aborted, ready, orphd>>
 
 -----------------------------------------------------------------------------
 (* spynode/transactions.go:28 processUnconfirmedTx *)
@@ -106,7 +116,7 @@ ConsumeA ==   \* take from the channel; MemPool.AddTransaction; (hook utx.afterM
           /\ idx' = AddIdx(idx, x.t, Ins[x.t])
           /\ c' = [pc |-> "mid", t |-> x.t, tr |-> x.tr, safe |-> x.safe, confl |-> ConflSeq(idx, Ins[x.t], <<>>)]
   /\ act' = A("ConsumeA", Head(q).t, "")
-  /\ UNCHANGED <<un, st, nblk, clock, dl, arr, restarts, checks, aborted>>
+  /\ UNCHANGED <<un, st, nblk, clock, dl, arr, restarts, checks, aborted, ready, orphd>>
 
 \* conflict notifications: for each conflicting tx that is tracked as relevant (transactions.go:53)
 RECURSIVE ConflFold(_, _, _, _)
@@ -128,23 +138,28 @@ ConsumeB ==   \* conflicts; relevance; TxRepository.Add; tx state; HandleTx
         ELSE IF f.un[t].in
         THEN /\ un' = [f.un EXCEPT ![t].tr = @ \/ c.tr, ![t].safe = @ \/ c.safe]
              /\ st' = f.st /\ dl' = f.dl                                      \* "Tx already added"
-        ELSE IF "reannounce" \in Fix /\ f.st[t].has /\ f.st[t].proof
+        ELSE IF "reannounce" \in Fix /\ f.st[t].has /\ f.st[t].proof /\ ~f.st[t].pst
         THEN /\ un' = f.un /\ st' = f.st /\ dl' = f.dl                        \* already confirmed on the current chain
-        ELSE LET s0 == IF f.st[t].has THEN f.st[t] ELSE [NoSt EXCEPT !.has = TRUE]
-                 s1 == [s0 EXCEPT !.safe = c.safe, !.depth = IF @ = 0 /\ ~s0.proof THEN 1 ELSE @]
+        ELSE LET sx == IF f.st[t].has THEN f.st[t] ELSE [NoSt EXCEPT !.has = TRUE]
+                 \* a proof of an orphaned block: the code as it was keeps it in the record it delivers (F31)
+                 s0 == IF "staleproof" \in Fix /\ sx.proof /\ sx.pst THEN [sx EXCEPT !.proof = FALSE, !.pst = FALSE] ELSE sx
+                 \* a stored record that is already unsafe: the code as it was sets safe from the channel item alone (F35)
+                 s1 == [s0 EXCEPT !.safe = IF "neverboth" \in Fix THEN c.safe /\ ~s0.unsafe ELSE c.safe,
+                                  !.depth = IF @ = 0 /\ ~s0.proof THEN 1 ELSE @]
                  s2 == IF c.confl # <<>> THEN [s1 EXCEPT !.unsafe = TRUE, !.safe = FALSE] ELSE s1
              IN /\ un' = [f.un EXCEPT ![t] = [in |-> TRUE, safe |-> c.safe, unsafe |-> FALSE, tr |-> c.tr, t0 |-> clock]]
                 /\ st' = [f.st EXCEPT ![t] = s2]
                 /\ dl' = Append(f.dl, Note("new", t, s2))
   /\ c' = IdleC /\ act' = A("ConsumeB", c.t, "")
-  /\ UNCHANGED <<mp, idx, q, nblk, clock, arr, restarts, checks, aborted>>
+  /\ UNCHANGED <<mp, idx, q, nblk, clock, arr, restarts, checks, aborted, ready, orphd>>
 
 -----------------------------------------------------------------------------
 (* spynode/blocks.go:198 ProcessBlock, transaction part; the node is in sync *)
 \* one transaction of the block: s = [mp, idx, snap (unconfirmed list), un, st, dl, rel (relevant txs of the block)]
 BTx(s, t) ==
   LET inUn == t \in s.snap
-      r == RemoveTx(s.mp, s.idx, t)                                    \* RemoveTransaction (blocks.go:288)
+      r == IF ready THEN RemoveTx(s.mp, s.idx, t)                      \* RemoveTransaction (blocks.go:288), only while in sync
+           ELSE <<s.mp, s.idx, FALSE>>
       cf == ConflSeq(r[2], Ins[t], <<>>)                               \* MemPool.Conflicting (evicts), for every tx of the block
       ev == RemoveAll(r[1], r[2], cf)
       snap2 == s.snap \ {t}
@@ -170,15 +185,16 @@ BNotify(sts, d, rel) ==
   IF rel = <<>> THEN <<sts, d>>
   ELSE LET e == Head(rel) IN
        IF e.new
-       THEN LET s == [has |-> TRUE, safe |-> e.safe, unsafe |-> ~e.safe, canc |-> FALSE, proof |-> TRUE, depth |-> 0]
+       THEN LET s == [has |-> TRUE, safe |-> e.safe, unsafe |-> ~e.safe, canc |-> FALSE, proof |-> TRUE, depth |-> 0, pst |-> FALSE]
             IN BNotify([sts EXCEPT ![e.t] = s], Append(d, Note("new", e.t, s)), Tail(rel))
-       ELSE LET s0 == [sts[e.t] EXCEPT !.proof = TRUE, !.depth = 0]
+       ELSE LET s0 == [sts[e.t] EXCEPT !.proof = TRUE, !.depth = 0, !.pst = FALSE]
                 s == IF ~s0.unsafe /\ e.safe THEN [s0 EXCEPT !.safe = TRUE, !.unsafe = FALSE]
                      ELSE [s0 EXCEPT !.safe = FALSE, !.unsafe = TRUE]
             IN BNotify([sts EXCEPT ![e.t] = s], Append(d, Note("upd", e.t, s)), Tail(rel))
 
 Block ==
   /\ nblk < NB /\ ~aborted
+  /\ \A k \in 1..nblk : k \in Range(orphd) \/ Range(Blk[k]) \cap Range(Blk[nblk + 1]) = {}    \* a chain confirms a transaction once
   /\ LET j == nblk + 1
          snap == {t \in Tx : un[t].in}
          s0 == [mp |-> mp, idx |-> idx, snap |-> snap, st |-> st, dl |-> dl, rel |-> <<>>]
@@ -187,7 +203,19 @@ Block ==
      IN /\ mp' = s.mp /\ idx' = s.idx /\ st' = n[1] /\ dl' = n[2]
         /\ un' = [t \in Tx |-> IF t \in s.snap THEN un[t] ELSE NoUn]       \* FinalizeUnconfirmed
   /\ nblk' = nblk + 1 /\ act' = A("Block", nblk + 1, "")
-  /\ UNCHANGED <<q, c, clock, arr, restarts, checks, aborted>>
+  /\ ready' = TRUE                                  \* the replacement block of a reorganisation brings the node back in sync
+  /\ UNCHANGED <<q, c, clock, arr, restarts, checks, aborted, orphd>>
+
+\* handlers/headers.go:165 : a competing header orphans the top block (txs.RemoveBlock, blocks.Revert); the tx state records
+\* keep their merkle proofs; the node is out of sync until the replacement block (the next of Blk) has been processed.
+Chain == SelectSeq([j \in 1..nblk |-> j], LAMBDA j : j \notin Range(orphd))
+Reorg ==
+  /\ Len(orphd) < MaxReorg /\ ready /\ ~aborted /\ nblk < NB /\ Chain # <<>>
+  /\ LET top == Chain[Len(Chain)] IN
+     /\ st' = [t \in Tx |-> IF t \in Range(Blk[top]) /\ st[t].has /\ st[t].proof THEN [st[t] EXCEPT !.pst = TRUE] ELSE st[t]]
+     /\ orphd' = Append(orphd, top) /\ act' = A("Reorg", top, "")
+  /\ ready' = FALSE
+  /\ UNCHANGED <<mp, idx, un, q, c, nblk, clock, dl, arr, restarts, checks, aborted>>
 
 -----------------------------------------------------------------------------
 (* spynode/node.go:973 checkTxDelays: one iteration *)
@@ -201,29 +229,31 @@ KFold(sts, d, ts) ==
 
 NewSafe == {t \in Tx : un[t].in /\ ~un[t].safe /\ ~un[t].unsafe /\ un[t].t0 + Delay < clock /\ (un[t].tr \/ mp[t].tr)}
 Checker ==
-  /\ checks < MaxCheck /\ c.pc = "idle" /\ ~aborted
+  /\ checks < MaxCheck /\ c.pc = "idle" /\ ~aborted /\ ready
   /\ LET ns == NewSafe  k == KFold(st, dl, ns) IN
      /\ un' = [t \in Tx |-> IF t \in ns THEN [un[t] EXCEPT !.safe = TRUE] ELSE un[t]]
      /\ st' = k[1] /\ dl' = k[2]
   /\ checks' = checks + 1 /\ act' = A("Checker", 0, "")
-  /\ UNCHANGED <<mp, idx, q, c, nblk, clock, arr, restarts, aborted>>
+  /\ UNCHANGED <<mp, idx, q, c, nblk, clock, arr, restarts, aborted, ready, orphd>>
 
 Restart ==   \* clean stop / start : the mempool is lost, the unconfirmed set and the tx states persist
-  /\ restarts < MaxRestart /\ c.pc = "idle" /\ q = <<>>
+  /\ restarts < MaxRestart /\ c.pc = "idle" /\ q = <<>> /\ ready
   /\ mp' = [t \in Tx |-> NoMp] /\ idx' = [o \in Outs |-> <<>>]
   /\ restarts' = restarts + 1 /\ act' = A("Restart", 0, "")
-  /\ UNCHANGED <<un, st, q, c, nblk, clock, dl, arr, checks, aborted>>
+  /\ UNCHANGED <<un, st, q, c, nblk, clock, dl, arr, checks, aborted, ready, orphd>>
 
 Init ==
   /\ mp = [t \in Tx |-> NoMp] /\ idx = [o \in Outs |-> <<>>] /\ un = [t \in Tx |-> NoUn]
   /\ st = [t \in Tx |-> NoSt] /\ q = <<>> /\ c = IdleC /\ nblk = 0
-  /\ clock = 0 /\ dl = <<>> /\ arr = 0 /\ restarts = 0 /\ checks = 0 /\ aborted = FALSE /\ act = A("init", 0, "")
+  /\ clock = 0 /\ dl = <<>> /\ arr = 0 /\ restarts = 0 /\ checks = 0 /\ aborted = FALSE /\ ready = TRUE /\ orphd = <<>>
+  /\ act = A("init", 0, "")
 
 Next ==
   \/ \E t \in Tx, s \in {"TT", "UT", "LOC", "TX", "UX"} : Arrive(t, s)
   \/ \E t \in Tx, s \in {"TT", "UT"} : Inv(t, s)
   \/ Tick \/ ConsumeA \/ ConsumeB \/ Checker \/ Restart
   \/ (Race \/ c.pc = "idle") /\ Block
+  \/ (Race \/ c.pc = "idle") /\ Reorg
 
 Spec == Init /\ [][Next]_vars
 
@@ -231,17 +261,21 @@ Spec == Init /\ [][Next]_vars
 (* properties over the delivered history d (and, where needed, the state) *)
 News(d, t) == {i \in 1..Len(d) : d[i].k = "new" /\ d[i].t = t}
 Proofs(d, t) == {i \in 1..Len(d) : d[i].t = t /\ d[i].proof}
-AtMostOnceNewP(d) == \A t \in Tx : Cardinality(News(d, t)) <= 1                              \* C03
+Orphanings(o, t) == Cardinality({i \in 1..Len(o) : t \in Range(Blk[o[i]])})
+AtMostOnceNewP(d, o) == \A t \in Tx : Cardinality(News(d, t)) <= 1 + Orphanings(o, t)       \* C03 (again as new only after its block was orphaned)
+ProofValidP(d) == \A i \in 1..Len(d) : d[i].pv                                              \* C04
 NoIrrelevantP(d) == \A i \in 1..Len(d) : Rel[d[i].t]                                         \* C03
 NeverBothP(d) == \A i \in 1..Len(d) : ~(d[i].safe /\ d[i].unsafe)                            \* C07
 CancImpliesUnsafeP(d) == \A i \in 1..Len(d) : d[i].canc => d[i].unsafe                       \* C07
-StickyUnsafeP(d) == \A i, j \in 1..Len(d) :                                                  \* C07
-                      (i < j /\ d[i].t = d[j].t /\ (d[i].unsafe \/ d[i].canc)) => ~d[j].safe
+StickyUnsafeP(d) == \A i, j \in 1..Len(d) :                                                  \* C07 (a re-delivery as new, possible only
+                      (i < j /\ d[i].t = d[j].t /\ (d[i].unsafe \/ d[i].canc)                    \* after an orphaning, starts a new record)
+                         /\ \A k \in (i+1)..j : ~(d[k].t = d[i].t /\ d[k].k = "new")) => ~d[j].safe
 SafeOnceP(d) == \A t \in Tx : Cardinality({i \in 1..Len(d) : d[i].t = t /\ d[i].k = "upd" /\ d[i].safe /\ ~d[i].proof
                                             /\ \A j \in 1..(i-1) : d[j].t = t => ~d[j].safe}) <= 1   \* C07: first safe report once
 ProofDepthP(d) == \A i \in 1..Len(d) : d[i].proof => d[i].depth = 0                          \* C04
 
-AtMostOnceNew == AtMostOnceNewP(dl)
+AtMostOnceNew == AtMostOnceNewP(dl, orphd)
+ProofValid == ProofValidP(dl)
 NoIrrelevant == NoIrrelevantP(dl)
 NeverBoth == NeverBothP(dl)
 CancImpliesUnsafe == CancImpliesUnsafeP(dl)
@@ -265,7 +299,7 @@ Complete ==                                                                     
 CancelOnConfirm ==                                                                           \* C06
   \A j \in 1..nblk : \A i \in 1..Len(Blk[j]) : \A t1 \in Tx :
      LET t2 == Blk[j][i] IN
-     (t1 # t2 /\ Ins[t1] \cap Ins[t2] # {} /\ st[t1].has /\ ~st[t1].proof /\ un[t1].in)
+     (j \notin Range(orphd) /\ t1 # t2 /\ Ins[t1] \cap Ins[t2] # {} /\ st[t1].has /\ ~st[t1].proof /\ un[t1].in)
         => (st[t1].canc /\ st[t1].unsafe /\ ~st[t1].safe /\ mp[t1].st # "body")
 SafeWarranted ==                                                                             \* C07
   \A i \in 1..Len(dl) : (dl[i].safe /\ ~dl[i].proof /\ dl[i].k = "upd") =>
